@@ -89,18 +89,25 @@ def cases(draw) -> t.Any:
     form = draw(st.sampled_from(FORMS))
     direction = draw(st.sampled_from(['from', 'into']))
     sub = draw(st.integers(0, 3)) == 3          # instantiate a subclass of the containing class
-    return [srcs, pos, form, direction, sub]
+    # handlers on the containing class / its base that do NOT provide a converter for M (another type, or declining):
+    # they must not stop the search from going on to the enclosing class
+    other = draw(st.sampled_from(['none', 'none', 'mapping-other-type', 'declining-callable', 'base-other-type']))
+    inner_wrap = draw(st.sampled_from(['plain', 'plain', 'Optional', 'List', 'Union']))   # how Outer holds Inner
+    return [srcs, pos, form, direction, sub, other, inner_wrap]
 
 
 def render(case: t.Any) -> t.Any:
-    (srcs, pos, form, direction, sub) = case
-    return {'sources': srcs, 'position': pos, 'call_form': form, 'direction': direction, 'through_subclass': sub}
+    (srcs, pos, form, direction, sub) = case[:5]
+    return {'sources': srcs, 'position': pos, 'call_form': form, 'direction': direction, 'through_subclass': sub,
+            'other_handlers_on_containing_class': case[5] if len(case) > 5 else 'none', 'outer_holds_inner_as': case[6] if len(case) > 6 else 'plain'}
 
 
 def check(case: t.Any, ctx: Ctx) -> None:
     import pane
     _ensure_global()
-    (srcs, pos, form, direction, sub) = case
+    (srcs, pos, form, direction, sub) = case[:5]
+    other = case[5] if len(case) > 5 else 'none'
+    inner_wrap = case[6] if len(case) > 6 else 'plain'
     srcs = list(srcs)
     if pos != 'direct' and 'F' in srcs:
         srcs.remove('F')
@@ -137,15 +144,27 @@ def check(case: t.Any, ctx: Ctx) -> None:
         return x
 
     # ---- classes --------------------------------------------------------------------------------
+    class _Unrelated:
+        pass
+
+    def declining(ty: t.Any, args: t.Any, *, handlers: t.Any) -> t.Any:
+        return NotImplemented
     base_kw: t.Dict[str, t.Any] = {'custom': class_custom('I')} if 'I' in srcs else {}
+    if 'I' not in srcs and other == 'base-other-type':
+        base_kw = {'custom': {_Unrelated: _label_conv('unrelated')}}
     Base = type('Base', (pane.PaneBase,), {'__annotations__': {}}, **base_kw)
     inner_ns: t.Dict[str, t.Any] = {'__annotations__': {'m': wrap}}
     if 'F' in srcs:
         inner_ns['m'] = pane.field(converter=_label_conv('F'))
     inner_kw: t.Dict[str, t.Any] = {'custom': class_custom('O')} if 'O' in srcs else {}
+    if 'O' not in srcs and 'I' not in srcs and other == 'mapping-other-type':
+        inner_kw = {'custom': {_Unrelated: _label_conv('unrelated')}}
+    elif 'O' not in srcs and 'I' not in srcs and other == 'declining-callable':
+        inner_kw = {'custom': declining}
     Inner = type('Inner', (Base,), inner_ns, **inner_kw)
     InnerUsed = type('InnerSub', (Inner,), {'__annotations__': {}}) if sub else Inner
-    outer_ns: t.Dict[str, t.Any] = {'__annotations__': {'inner': InnerUsed, 'om': wrap} if pos == 'outer-field' else {'inner': InnerUsed}}
+    held: t.Any = {'plain': InnerUsed, 'Optional': t.Optional[InnerUsed], 'List': t.List[InnerUsed], 'Union': t.Union[int, InnerUsed]}[inner_wrap]
+    outer_ns: t.Dict[str, t.Any] = {'__annotations__': {'inner': held, 'om': wrap} if pos == 'outer-field' else {'inner': held}}
     if pos == 'outer-field' and 'F' in srcs:
         outer_ns['om'] = pane.field(converter=_label_conv('F'))
     outer_kw: t.Dict[str, t.Any] = {'custom': class_custom('E')} if 'E' in srcs else {}
@@ -169,9 +188,10 @@ def check(case: t.Any, ctx: Ctx) -> None:
 
     present = [s for s in ORDER if s in srcs]
     expected = present[0] if present else None
-    ctx.label(f"pos:{pos}", f"dir:{direction}", f"winner:{expected}", f"nsrc:{min(len(present), 4)}")
+    ctx.label(f"pos:{pos}", f"dir:{direction}", f"winner:{expected}", f"nsrc:{min(len(present), 4)}", f"other:{other}", f"held:{inner_wrap}")
     ctx.nontrivial(len(present) >= 2 and pos != 'outer-field')
-    ident = f"sources {present} (call form {form}), M at {pos}{' via a subclass of the containing class' if sub else ''}, direction {direction}"
+    ident = (f"sources {present} (call form {form}), M at {pos}{' via a subclass of the containing class' if sub else ''}, direction {direction}, "
+             f"other handlers on the containing class: {other}, Outer holds Inner as {inner_wrap}")
 
     if pos == 'top-List':
         T: t.Any = wrap
@@ -183,11 +203,12 @@ def check(case: t.Any, ctx: Ctx) -> None:
         get = lambda x: x.om if direction == 'from' else x['om']  # noqa: E731
     else:
         T = Outer
-        data = {'inner': {'m': wrap_data}}
-        get = (lambda x: unwrap(x.inner.m)) if direction == 'from' else (lambda x: unwrap(x['inner']['m']))
+        data = {'inner': [{'m': wrap_data}] if inner_wrap == 'List' else {'m': wrap_data}}
+        first = (lambda y: y[0]) if inner_wrap == 'List' else (lambda y: y)
+        get = (lambda x: unwrap(first(x.inner).m)) if direction == 'from' else (lambda x: unwrap(first(x['inner'])['m']))
     if pos == 'outer-field':
         # Inner.m has type `wrap` too: give it a value converted by whatever applies there; not observed
-        data['inner'] = {'m': wrap_data}
+        data['inner'] = [{'m': wrap_data}] if inner_wrap == 'List' else {'m': wrap_data}
 
     ctx.evaluated()
     if direction == 'from':
@@ -213,6 +234,8 @@ def check(case: t.Any, ctx: Ctx) -> None:
         inner_val: t.Any = {'direct': Labeled('x', 7), 'List': [Labeled('x', 7)], 'Dict': {'k': Labeled('x', 7)}, 'Optional': Labeled('x', 7),
                             'Tuple': (Labeled('x', 7), 1), 'outer-field': Labeled('x', 7)}[pos]
         inner_inst = InnerUsed.make_unchecked(m=inner_val)
+        if inner_wrap == 'List':
+            inner_inst = [inner_inst]
         x = Outer.make_unchecked(inner=inner_inst, om=inner_val) if pos == 'outer-field' else Outer.make_unchecked(inner=inner_inst)
     if pos == 'Optional' and expected in ('P', 'G', 'O', 'I', 'E', 'C', 'F'):
         pass
